@@ -19,7 +19,7 @@ def gen(ctx):
     greet = [["D0"], ["D1", "D1", "D0"], ["D3", "D7", "D0"], ["D14", "D0"]]
     for pw in PASSWORDS:
         for api in ("p", "o"):
-            for verdict in ("ok", "wrong", "ack5", "close", "cut", "garbage", "rerr", "werr", "two"):
+            for verdict in ("ok", "wrong", "ack5", "close", "cut", "garbage", "rerr", "werr", "two", "listack", "fieldsack", "listok", "fieldsok"):
                 g = rng.choice(greet)
                 cf = L.conf(pw=(b"other" if verdict == "wrong" else pw))
                 if verdict == "ok":
@@ -28,6 +28,14 @@ def gen(ctx):
                     labels = g + ["S*", "D0", "t200", "S*", "D0"]
                 elif verdict == "ack5":
                     labels = g + ["G:" + hexs(b"ACK [5@0] {} unknown command \"password\"\n"), "t200"]
+                elif verdict == "listack":     # the verdict is the ACK wherever it stands in the reply
+                    labels = g + ["G:" + hexs(rng.choice([b"list_OK\n", b"list_OK\nlist_OK\n", b"a: b\nlist_OK\n"]) + b"ACK [3@1] {password} incorrect password\n"), "t200"]
+                elif verdict == "fieldsack":
+                    labels = g + ["G:" + hexs(b"foo: bar\nACK [3@0] {password} incorrect password\n"), "t200"]
+                elif verdict == "listok":
+                    labels = g + ["G:" + hexs(b"list_OK\nOK\n"), "t200", "S*", "D0"] + L.flush(0)
+                elif verdict == "fieldsok":
+                    labels = g + ["G:" + hexs(b"foo: bar\nOK\n"), "t200", "S*", "D0"] + L.flush(0)
                 elif verdict == "close":
                     labels = g + ["e", "t200"]
                 elif verdict == "cut":
@@ -78,11 +86,12 @@ def run_password(ctx):
                 w = wire_password(pw)
                 if w is not None and lines and lines[0] != w:
                     v.append(f"password line {lines[0]!r} differs from {w!r}")
-                want = {"ok": "ok:", "two": "ok:", "wrong": "err:badpassword", "ack5": "err:badpassword", "close": "err:ueof", "cut": "err:ueof",
+                want = {"ok": "ok:", "two": "ok:", "listok": "ok:", "fieldsok": "ok:", "wrong": "err:badpassword", "ack5": "err:badpassword",
+                        "listack": "err:badpassword", "fieldsack": "err:badpassword", "close": "err:ueof", "cut": "err:ueof",
                         "garbage": "err:invalid", "rerr": "err:io"}[info["verdict"]]
                 if conn is None or not conn.startswith(want):
                     v.append(f"connect returned {conn}; verdict '{info['verdict']}' demands {want}")
-                if info["verdict"] in ("ok", "two"):
+                if info["verdict"] in ("ok", "two", "listok", "fieldsok"):
                     if len(lines) < 2 or lines[1] != b"idle":
                         v.append(f"after the accepted password the next line must be idle, got {lines[1:3]}")
                     ci = t.conn()[0]
